@@ -14,9 +14,6 @@ def classify(w):
         return "zero_order_absorption_requested_with_transits"
     if last == "abs_inst" and transits_before:
         return "instantaneous_absorption_requested_with_transits"
-    bio_present = (start == "pheno_rich" or "bio_add" in prev) and "bio_remove" not in prev
-    if what.startswith("reversibility") and last in ("transits_1", "transits_3") and bio_present:
-        return "transit_removal_loses_bioavailability"
     if last == "transits_0" and "frame: transits_0 changed lagtime from True to False" in what:
         return "transits_zero_request_removes_lag_time"
     absorb = [x for x in prev if x.startswith("abs_")]
